@@ -5,6 +5,26 @@ from .. import oracles as orc
 THEOREMS = ["C15.compat_same_class", "C15.compat_params", "C15.shared_write_idempotent"]
 
 
+def exported_constants(ctx, case, res, fail):
+    """the graph output is one more reader of a constant it exports: unless the recipe covers OUTPUT it must keep observing
+    the float values (a float reader never reads integer bytes)"""
+    from .. import pipeline as pl
+    mi, mo = pl.read(case.mb), pl.read(res["out"])
+    alg, _ = orc.resolve(res["q"], "OUTPUT", "")
+    if str(getattr(alg, "value", alg)) != "no_quantize":
+        return
+    for si, (gi, go) in enumerate(zip(mi.subgraphs, mo.subgraphs)):
+        for pos, ti in enumerate(gi.outputs):
+            t = gi.tensors[ti]
+            if mi.buffers[t.buffer].data is None or pos >= len(go.outputs):
+                continue
+            ctx.tag("exported_constant_checked")
+            to = go.tensors[go.outputs[pos]]
+            if to.type != t.type:
+                return fail(f"constant {pl.tname(t)} is a graph output and no rule covers OUTPUT, yet the output tensor now has type "
+                            f"{pl.TT_NAME.get(to.type)} instead of {pl.TT_NAME.get(t.type)}", "exported-constant-retyped")
+
+
 def run(ctx):
     ctx.rule = ("generated models with tied constants (one buffer referenced by several tensors within a subgraph and across subgraphs, one constant tensor with 2..3 consumers, shared constant feeding fc and elementwise ops) x recipes assigning equal, different or no quantization to the sharers (shipped, per-op regex rules, float casting, no_quantize); every buffer of the output is decoded against every tensor referencing it; rejections are allowed; the pipeline is compared with the Lean model; distinct = distinct (model, recipe) pairs")
     common.proof_side(ctx, THEOREMS)
@@ -13,9 +33,10 @@ def run(ctx):
     def per_case(case, res):
         if res["status"] == "ok":
             orc.oracle_c15(ctx, case, res, fp.failer(ctx, case))
+            exported_constants(ctx, case, res, fp.failer(ctx, case))
     n = 600 if ctx.tier == "quick" else 4000
     fp.explore(ctx, drv, n // 2, per_case, gen=fp.gen_tied_case, graph_corr=True, pipe_corr=True)
-    fp.explore(ctx, drv, n // 2, per_case, gen=lambda rng, i: fp.gen_case(rng, i, share_every=1), graph_corr=False, pipe_corr=True)
+    fp.explore(ctx, drv, n // 2, per_case, gen=lambda rng, i: fp.gen_case(rng, i, share_every=1, const_output=0.35 if i % 2 else 0.0), graph_corr=False, pipe_corr=True)
     drv.close()
     return common.finish(ctx)
 
